@@ -10,6 +10,7 @@ From HV Require Export Base.Prelude C19.Model C19.Proofs.
 Definition impl_fixes : fixes :=
   {| fx1 := true; fx2 := true; fx3 := true; fx4 := true; fx5 := true; fx6 := true; fx7 := true; fx8 := true;
      fx9 := true;     (* C19-F9 repaired by fix: commit b37641c *)
+     fx10 := false;   (* C19-F10 is open: fixes/C19-F10.diff *)
      fx18 := true |}.
 
 Definition memn (l : list nat) (n : nat) : bool := existsb (Nat.eqb n) l.
@@ -36,29 +37,43 @@ Definition reload_eqb (a b : reload) : bool :=
 Record rcase := {
   rc_comp : comp; rc_input : kinput; rc_pre : kstate; rc_obs : reload }.
 
-Definition rc c nopath keyid file chain_ok usable pre obs :=
+Definition rc c nopath keyid file trailing chain_ok usable pre obs :=
   {| rc_comp := c;
-     rc_input := {| i_path_empty := nopath; i_keyid := keyid; i_file := file; i_chain_ok := chain_ok; i_usable := usable |};
+     rc_input := {| i_path_empty := nopath; i_keyid := keyid; i_file := file; i_trailing := trailing;
+                    i_chain_ok := chain_ok; i_usable := usable |};
      rc_pre := pre; rc_obs := obs |}.
 
-(** the property on the observation: the process lives, and unless the
-    component reports a successful reload its state is the one it had *)
-Definition reload_prop (pre : kstate) (o : reload) : bool :=
+(** the property on the observation, from the statement alone: the process lives; unless the
+    load succeeded the component's state is the one it had; and a PARTIAL file (undecodable
+    tail) is not loaded.  [Reloaded] / [Kept] is the return value of the component's load. *)
+Definition reload_prop (partial : bool) (pre : kstate) (o : reload) : bool :=
   match o with
-  | Reloaded _ => true
+  | Reloaded _ => negb partial
   | Kept st => kstate_eqb st pre
   | ProcessExit _ => false
   end.
 
+(** correspondence on what the property talks about: the outcome class, the exit site, the state
+    kept by a rejected reload.  WHICH state a successful reload produces (key selection, kid
+    generation, chain order) is not C19's business and is not compared. *)
+Definition reload_corr (a b : reload) : bool :=
+  match a, b with
+  | Reloaded _, Reloaded _ => true
+  | Kept x, Kept y => kstate_eqb x y
+  | ProcessExit s, ProcessExit s' => site_eqb s s'
+  | _, _ => false
+  end.
+
 Definition check_reload (impl : fixes) (c : rcase) : verdict :=
-  {| v_corr := reload_eqb (on_changed (rc_comp c) impl (rc_pre c) (rc_input c)) (rc_obs c);
-     v_prop := reload_prop (rc_pre c) (rc_obs c);
+  {| v_corr := reload_corr (on_changed (rc_comp c) impl (rc_pre c) (rc_input c)) (rc_obs c);
+     v_prop := reload_prop (i_trailing (rc_input c)) (rc_pre c) (rc_obs c);
      v_guards := guards [(1%Z, guard_F1 (rc_comp c) impl (rc_input c));
                          (* also where only the repair of F2 (createEntry rejects the size) would change the outcome *)
                          (2%Z, guard_F2 (rc_comp c) impl (rc_input c) ||
                                match ks_of (rc_comp c) impl (rc_input c) with Ok es => existsb unsupported es | _ => false end);
                          (5%Z, guard_F5 (rc_comp c) impl (rc_input c));
-                         (6%Z, guard_F6 (rc_comp c) impl (rc_input c))] |}.
+                         (6%Z, guard_F6 (rc_comp c) impl (rc_input c));
+                         (10%Z, guard_F10 (rc_comp c) impl (rc_input c))] |}.
 
 (** ** key store stream: createKeyStore + Entry.JWK of every entry *)
 Record oentry := { oe_entry : entry; oe_jwk : res string }.
@@ -67,8 +82,8 @@ Definition oe kid a z pub chain jwk :=
                     e_chain := map (fun n => mkc n 0 "" "" "" "") chain |};
      oe_jwk := jwk |}.
 
-Record kcase := { kc_blocks : list block; kc_chain_ok : nat -> bool; kc_obs : res (list oentry) }.
-Definition kc bl ok obs := {| kc_blocks := bl; kc_chain_ok := ok; kc_obs := obs |}.
+Record kcase := { kc_blocks : list block; kc_trailing : bool; kc_chain_ok : nat -> bool; kc_obs : res (list oentry) }.
+Definition kc bl trailing ok obs := {| kc_blocks := bl; kc_trailing := trailing; kc_chain_ok := ok; kc_obs := obs |}.
 
 Definition res_eqb {A} (eqb : A -> A -> bool) (a b : res A) : bool :=
   match a, b with
@@ -82,41 +97,54 @@ Definition entry_eqb (a b : entry) : bool :=
   String.eqb (e_kid a) (e_kid b) && alg_eqb (e_alg a) (e_alg b) && Z.eqb (e_size a) (e_size b) &&
   Nat.eqb (e_pub a) (e_pub b) && list_eqb Nat.eqb (map c_id (e_chain a)) (map c_id (e_chain b)).
 
+Definition is_panic {A} (r : res A) : bool := match r with Panic _ => true | _ => false end.
+
+(* per entry: the key (algorithm, size) and whether JWK() panics; kid / chain are C16's business *)
 Definition oentry_eqb (a b : oentry) : bool :=
-  entry_eqb (oe_entry a) (oe_entry b) && res_eqb String.eqb (oe_jwk a) (oe_jwk b).
+  alg_eqb (e_alg (oe_entry a)) (e_alg (oe_entry b)) && Z.eqb (e_size (oe_entry a)) (e_size (oe_entry b)) &&
+  Bool.eqb (is_panic (oe_jwk a)) (is_panic (oe_jwk b)).
+
+Definition ks_result (impl : fixes) (c : kcase) : res (list entry) :=
+  if fx10 impl && kc_trailing c then Err else create_key_store impl (kc_chain_ok c) (kc_blocks c).
 
 Definition ks_model (impl : fixes) (c : kcase) : res (list oentry) :=
-  match create_key_store impl (kc_chain_ok c) (kc_blocks c) with
+  match ks_result impl c with
   | Ok es => Ok (map (fun e => {| oe_entry := e; oe_jwk := jose_alg e |}) es)
   | Err => Err
   | Panic s => Panic s
   end.
 
-Definition is_panic {A} (r : res A) : bool := match r with Panic _ => true | _ => false end.
 
 Definition check_ks (impl : fixes) (c : kcase) : verdict :=
   {| v_corr := res_eqb (list_eqb oentry_eqb) (ks_model impl c) (kc_obs c);
+     (* no panic, every entry has a JWK, and a partial file (undecodable tail) is not accepted *)
      v_prop := match kc_obs c with
-               | Ok es => negb (existsb (fun e => is_panic (oe_jwk e)) es)
+               | Ok es => negb (existsb (fun e => is_panic (oe_jwk e)) es) && negb (kc_trailing c)
                | Err => true
                | Panic _ => false
                end;
-     v_guards := guards [(1%Z, match create_key_store impl (kc_chain_ok c) (kc_blocks c) with
-                               | Ok [] => true | _ => false end);   (* the root of F1: an empty store without error *)
-                         (2%Z, match create_key_store impl (kc_chain_ok c) (kc_blocks c) with
-                               | Ok es => existsb unsupported es | _ => false end);
-                         (6%Z, match create_key_store impl (kc_chain_ok c) (kc_blocks c) with
-                               | Panic SChainLoop => true | _ => false end)] |}.
+     v_guards := guards [(1%Z, match ks_result impl c with Ok [] => true | _ => false end);
+                         (2%Z, match ks_result impl c with Ok es => existsb unsupported es | _ => false end);
+                         (6%Z, match ks_result impl c with Panic SChainLoop => true | _ => false end);
+                         (10%Z, negb (fx10 impl) && kc_trailing c &&
+                                match ks_result impl c with Ok _ => true | _ => false end)] |}.
 
 (** ** trust store stream *)
 Record tcase := { tc_strict : bool; tc_input : ts_input; tc_obs : res (list nat) }.
 Definition tc strict bl trailing obs :=
   {| tc_strict := strict; tc_input := {| ts_blocks := bl; ts_trailing := trailing |}; tc_obs := obs |}.
 
+(* the certificates themselves are not the property's business: their number is compared *)
+Definition len_eqb (a b : list nat) : bool := Nat.eqb (length a) (length b).
+
 Definition check_ts (impl : fixes) (c : tcase) : verdict :=
-  {| v_corr := res_eqb (list_eqb Nat.eqb) (trust_store impl (tc_strict c) (tc_input c)) (tc_obs c);
-     v_prop := negb (is_panic (tc_obs c));
-     v_guards := guards [(7%Z, guard_F7 impl (tc_strict c) (tc_input c))] |}.
+  let partial := is_nil (ts_blocks (tc_input c)) || ts_trailing (tc_input c) in
+  {| v_corr := res_eqb len_eqb (trust_store impl (tc_strict c) (tc_input c)) (tc_obs c);
+     (* no panic; a file without any block or with an undecodable tail is not accepted *)
+     v_prop := match tc_obs c with Ok _ => negb partial | Err => true | Panic _ => false end;
+     v_guards := guards [(7%Z, guard_F7 impl (tc_strict c) (tc_input c));
+                         (10%Z, negb (fx10 impl) && partial &&
+                                match trust_store impl (tc_strict c) (tc_input c) with Ok _ => true | _ => false end)] |}.
 
 (** ** rule-set stream *)
 Definition stp m mr cel := {| s_map := m; s_mech := mr; s_cel := cel |}.
@@ -135,7 +163,8 @@ Definition ids_eqb (a b : list string) : bool := subset a b && subset b a.
 
 Definition rs_out_eqb (a b : rs_out) : bool :=
   match a, b with
-  | RsApplied x, RsApplied y | RsRejected x, RsRejected y => ids_eqb x y
+  | RsApplied _, RsApplied _ => true           (* what an accepted rule set looks like in the repository: C06 *)
+  | RsRejected x, RsRejected y => ids_eqb x y
   | RsExit s, RsExit s' => site_eqb s s'
   | _, _ => false
   end.
@@ -181,21 +210,24 @@ Definition fsc pre b read stat_ok proc_ok obs :=
 Definition pcall_eqb (a b : pcall) : bool :=
   match a, b with PCreated, PCreated | PUpdated, PUpdated | PDeleted, PDeleted => true | _, _ => false end.
 
+(* stored state and whether an error was returned; the processor calls are reported, not compared *)
 Definition fs_out_eqb (a b : fs_out) : bool :=
   match a, b with
-  | FsDone x, FsDone y => option_eqb Nat.eqb (fr_state x) (fr_state y) && list_eqb pcall_eqb (fr_calls x) (fr_calls y) &&
-                          Bool.eqb (fr_err x) (fr_err y)
+  | FsDone x, FsDone y => option_eqb Nat.eqb (fr_state x) (fr_state y) && Bool.eqb (fr_err x) (fr_err y)
   | FsExit s, FsExit s' => site_eqb s s'
   | _, _ => false
   end.
 
 Definition check_fs (impl : fixes) (c : fscase) : verdict :=
   {| v_corr := fs_out_eqb (fs_changed impl (fs_pre c) (fs_ev c)) (fs_obs c);
+     (* the loop survives; an event that ends in an error leaves the stored state; and so does an event that
+        finds the rule file EMPTY (truncation at offset 0) *)
      v_prop := match fs_obs c with
-               | FsDone x => negb (fr_err x) || option_eqb Nat.eqb (fr_state x) (fs_pre c)
+               | FsDone x => (negb (fr_err x) || option_eqb Nat.eqb (fr_state x) (fs_pre c)) &&
+                             (match fe_read (fs_ev c) with RdEmpty => option_eqb Nat.eqb (fr_state x) (fs_pre c) | _ => true end)
                | FsExit _ => false
                end;
-     v_guards := guards [(4%Z, guard_F4 impl (fs_ev c))] |}.
+     v_guards := guards [(4%Z, guard_F4 impl (fs_ev c)); (11%Z, guard_F11 impl (fs_pre c) (fs_ev c))] |}.
 
 (** ** request stream: composite extractor and recovery middleware *)
 Inductive qcase :=
@@ -211,7 +243,11 @@ Definition check_req (impl : fixes) (c : qcase) : verdict :=
   | QRecover h obs =>
     {| v_corr := Z.eqb (recovery_mw h) obs;
        (* the driver reports -1 when the panic escaped the middleware: no response at all *)
-       v_prop := match h with Panicked _ => negb (success obs) && Z.leb 100 obs | Answered _ => true end;
+       v_prop := match h with
+                 | Panicked _ => negb (success obs) && Z.leb 100 obs
+                 | PanickedAfter _ => Z.leb 100 obs        (* a response there is; its status was sent before the panic *)
+                 | Answered _ => true
+                 end;
        v_guards := [] |}
   end.
 
@@ -226,7 +262,7 @@ Definition rmc e o := {| rm_expect := e; rm_obs := o |}.
 Definition check_remote (impl : fixes) (c : rmcase) : verdict :=
   let ok := match rm_obs c with ROk => true | _ => false end in
   let final_status := match rm_obs c with ROk => 200%Z | RErr => 401%Z | RPanics => recovery_mw (Panicked PkOther) end in
-  {| v_corr := match rm_expect c with Some b => Bool.eqb ok b | None => true end;
+  {| v_corr := match rm_obs c with RPanics => false | _ => match rm_expect c with Some b => Bool.eqb ok b | None => true end end;
      v_prop := match rm_expect c with Some false => negb (success final_status) | _ => true end;
      v_guards := [] |}.
 
@@ -250,3 +286,9 @@ Definition check_misc (impl : fixes) (c : mcase) : verdict :=
   | ME c => check_reload impl c     (* end-to-end through the real watcher, in a child process *)
   | MS c => check_scopes impl c
   end.
+
+(** ** the key-store watcher's loop: every rewrite (with watcher errors in between) is delivered to the
+    listeners — the loop has no decision of its own to model, "alive" is the whole property *)
+Inductive wlcase := WL (delivered : list bool).
+Definition check_wloop (impl : fixes) (c : wlcase) : verdict :=
+  match c with WL l => {| v_corr := forallb (fun b => b) l; v_prop := forallb (fun b => b) l; v_guards := [] |} end.
